@@ -38,6 +38,7 @@ CORPUS = [
     # a form feed (page separator) is white space for the parser, not a line boundary
     ("x = 1\n\x0c\nimport os as operating\ndef paged(): pass\n", ['operating', 'paged']),
     ("first = 1\r\nimport os as crlf\r\n", ['crlf']),
+    ("first = 1\r\n\r\nclass Crlf: pass\r\ndef crlf_f(): pass\r\n", ['Crlf', 'crlf_f']),
     ("class classic: pass\n", ['classic']),
     # any white space separates the keyword from the name
     ("def\ttabbed(): pass\n", ['tabbed']),
@@ -55,6 +56,13 @@ CORPUS = [
     ("from os import sep#, altsep\n", ['sep']),
     ("from os import (sep,\\\n  altsep)\n", ['sep', 'altsep']),
     ("import os as o#x\nimport sys\\\n  as s\n", ['o', 's']),
+    # the bound identifier also occurs earlier in the statement: the position is that of the binding occurrence
+    ("from b import b\n", ['b']),
+    ("import a.b as a\n", ['a']),
+    ("from os import path as os\n", ['os']),
+    ("import x as y, y as x\n", ['y', 'x']),
+    # a long parenthesised import: the names beyond any fixed window of lines
+    ("from m import (\n" + "".join("    n%d,\n" % i for i in range(60)) + ")\n", ['n0', 'n49', 'n50', 'n59']),
 ]
 
 
@@ -166,6 +174,30 @@ def call_shapes(repo):
     return shapes
 
 
+def binding_position(src, stmt, idx, name):
+    """Where the identifier that introduces the binding stands (the checker's own parse, ASCII corpus): an alias ends with its
+    as-name and starts with the first component of the imported name; the name of a def / class is the first NAME token after
+    the keyword."""
+    if isinstance(stmt, (ast.Import, ast.ImportFrom)):
+        al = stmt.names[idx]
+        if al.asname:
+            return (al.end_lineno, al.end_col_offset - len(al.asname))
+        return (al.lineno, al.col_offset)
+    import io, tokenize
+    lines = src.replace('\r\n', '\n').replace('\r', '\n').replace('\x0c', ' ')
+    kw = 'class' if isinstance(stmt, ast.ClassDef) else 'def'
+    seen_kw = False
+    for t in tokenize.generate_tokens(io.StringIO(lines).readline):
+        if t.start < (stmt.lineno, stmt.col_offset):
+            continue
+        if t.type == tokenize.NAME and t.string == kw and not seen_kw:
+            seen_kw = True
+            continue
+        if seen_kw and t.type == tokenize.NAME:
+            return t.start if t.string == name else None
+    return None
+
+
 def _names(lines, got, name):
     """the text at `got` is the whole identifier `name`"""
     return isinstance(got, tuple) and len(got) == 2 and all(isinstance(x, int) for x in got) and 1 <= got[0] <= len(lines) \
@@ -224,10 +256,11 @@ def model(repo):
                         except (IndexError, AttributeError, TypeError):
                             nchecked -= 1
                             continue
-                        ok = _names(lines, got, name)
+                        truth = binding_position(src, stmt, idx, name)
+                        ok = _names(lines, got, name) and (truth is None or tuple(got) == tuple(truth))
                         text = lines[got[0] - 1][got[1]:got[1] + len(name) + 3] if 1 <= got[0] <= len(lines) else None
-                        out.append(('text', key, ok, 'the %s binding `%s` of %r is positioned at %s = %r, where the text reads %r - not the '
-                                    'bound identifier' % (kind, name, src, got, shape[1], text),
+                        out.append(('text', key, ok, 'the %s binding `%s` of %r is positioned at %s = %r, where the text reads %r; the '
+                                    'identifier that introduces the binding stands at %s' % (kind, name, src[:80], got, shape[1], text, truth),
                                     '%s: text at declared_at is the identifier' % key))
                         continue
                     prefix, suffix, spath, shift, delims, extras, helper = shape
@@ -254,10 +287,11 @@ def model(repo):
                         continue
                     except Uninterpretable as e:
                         raise AnalysisError('%s is outside the interpretable subset: %s' % (hname, e))
-                    ok = _names(lines, got, name)
+                    truth = binding_position(src, stmt, idx, name)
+                    ok = _names(lines, got, name) and (truth is None or tuple(got) == tuple(truth))
                     text = lines[got[0] - 1][got[1]:got[1] + len(name) + 3] if isinstance(got, tuple) and isinstance(got[0], int) and 1 <= got[0] <= len(lines) else None
-                    out.append(('text', key, ok, 'the %s binding `%s` of %r is positioned at %s, where the text reads %r - not the bound '
-                                'identifier (search string %r from %s%s)' % (kind, name, src, got, text, prefix + name + suffix, start,
+                    out.append(('text', key, ok, 'the %s binding `%s` of %r is positioned at %s, where the text reads %r; the identifier that '
+                                'introduces the binding stands at %s (search string %r from %s%s)' % (kind, name, src[:80], got, text, truth, prefix + name + suffix, start,
                                                                                ''.join(', %s=%r' % (k, kwargs.get(k)) for k in kwargs)),
                                 '%s: text at declared_at is the identifier' % key))
         out.append(('text-count', 'text-searched bindings checked', nchecked >= 30, 'only %d bindings' % nchecked, None))
